@@ -201,6 +201,8 @@ def file_traces(tid0, res, encoding, meta, desc, max_records=None):
     for reader, label, ok, want, got in views:
         if max_records is not None and len(want) > max_records:
             continue            # (a file of a shipped ruleset too long for one TLC trace)
+        if len(got) > 3 * len(want) + 2000:
+            got = got[:3 * len(want) + 2000]      # a loader that returns far more than the file holds: already wrong, keep the trace small
         tid += 1
         traces.append({'tid': tid, 'kind': 'file', 'reader': reader, 'ok': bool(ok),
                        'want': [[cps(v), rk[p]] for v, p in want], 'got': [[cps(v), rk[p]] for v, p in got]})
